@@ -270,6 +270,13 @@ public:
 				json::Object o;
 				o["k"] = "rec";
 				o["rec"] = recordName(RD);
+				o["l"] = (int64_t) lineOf(ILE->getBeginLoc());
+				if (ILE->getBeginLoc().isMacroID()) {
+					json::Array ms = macroStack(ILE->getBeginLoc());
+					if (!ms.empty())
+						o["m"] = std::move(ms);
+					o["mcol"] = (int64_t) colOf(ILE->getBeginLoc());
+				}
 				json::Object fields;
 				if (RD->isUnion()) {
 					if (const FieldDecl *FD = ILE->getInitializedFieldInUnion()) {
@@ -492,8 +499,14 @@ public:
 		} else if (const auto *ME = dyn_cast<MemberExpr>(S)) {
 			o["field"] = ME->getMemberDecl()->getName().str();
 			o["arrow"] = ME->isArrow();
-			if (const auto *FD = dyn_cast<FieldDecl>(ME->getMemberDecl()))
-				o["rec"] = recordName(FD->getParent());
+			if (const auto *FD = dyn_cast<FieldDecl>(ME->getMemberDecl())) {
+				const RecordDecl *RD = FD->getParent();
+				// members of anonymous structs/unions belong, for the
+				// rules, to the enclosing named record
+				while (RD->isAnonymousStructOrUnion() && isa<RecordDecl>(RD->getParent()))
+					RD = cast<RecordDecl>(RD->getParent());
+				o["rec"] = recordName(RD);
+			}
 		} else if (const auto *SL = dyn_cast<StringLiteral>(S)) {
 			o["s"] = fixUtf8(SL->getBytes());
 		} else if (const auto *UO = dyn_cast<UnaryOperator>(S)) {
